@@ -48,6 +48,8 @@ type termSession struct {
 	ich     chan string
 	och     chan opshell.CLine
 	cancel  context.CancelFunc
+	ctx     context.Context
+	started bool
 	doRet   chan error
 	capture *os.File
 	off     int64
@@ -63,6 +65,12 @@ var (
 
 // newTermSession builds a Shell through the real New and starts its Do.
 func newTermSession(capPath string, noTimestamps bool, insert []byte) (*termSession, error) {
+	return newTermSessionOpts(capPath, noTimestamps, insert, false)
+}
+
+// newTermSessionOpts is newTermSession; with deferStart the caller starts Do
+// (ts.start) itself.
+func newTermSessionOpts(capPath string, noTimestamps bool, insert []byte, deferStart bool) (*termSession, error) {
 	ts := &termSession{ich: make(chan string, 64), och: make(chan opshell.CLine, 4096), doRet: make(chan error, 1), insert: insert}
 	var err error
 	if ts.capture, err = os.OpenFile(capPath, os.O_RDWR|os.O_CREATE|os.O_TRUNC, 0o600); nil != err {
@@ -79,8 +87,17 @@ func newTermSession(capPath string, noTimestamps bool, insert []byte) (*termSess
 	}
 	ctx, cancel := context.WithCancel(context.Background())
 	ts.cancel = cancel
-	go func() { ts.doRet <- ts.sh.Do(ctx) }()
+	ts.ctx = ctx
+	if !deferStart {
+		ts.start()
+	}
 	return ts, nil
+}
+
+// start starts the Shell's Do.
+func (ts *termSession) start() {
+	ts.started = true
+	go func() { ts.doRet <- ts.sh.Do(ts.ctx) }()
 }
 
 // output returns what reached the terminal since the last call.
@@ -98,9 +115,11 @@ func (ts *termSession) output() string {
 func (ts *termSession) close() {
 	ts.cancel()
 	ts.stdinW.Close() /* ReadLine sees EOF. */
-	select {
-	case <-ts.doRet:
-	case <-time.After(30 * time.Second):
+	if ts.started {
+		select {
+		case <-ts.doRet:
+		case <-time.After(30 * time.Second):
+		}
 	}
 	ts.cleanup()
 	ts.stdinR.Close()
